@@ -100,6 +100,55 @@ CHECKS = {
         "Ids used twice or never are outside the quantifier. Scheduler assumption as for C16.",
         "DESIGN.md section 3 C06",
     ),
+    "C11": (
+        "fault_enumeration",
+        "crash-point fault injection over generated programs (Hypothesis): forked child with deterministic uuids/clock, SIGKILL at generated points (before write, after a byte prefix, before flush, after flush, external after k acks); byte-prefix + acknowledgement oracle against the uncrashed reference run, parser checked against an independent reference tree; a forced two-thread stall for acknowledged-but-unwritten messages",
+        "Each generated program is run to completion once (reference bytes and per-call offsets) and once in a forked child killed at a generated instant; the surviving file must be a prefix of the reference at least as long as the last acknowledged call, parse without error, agree with an independent tree builder and report completeness exactly. Holds on every crash point generated.",
+        "Durability against process death (page cache), not power loss. The reference run shares the deterministic counters with the child.",
+        "DESIGN.md section 3 C11",
+    ),
+    "C14": (
+        "exploration",
+        "property-based testing (Hypothesis): generated type definitions; conforming use must validate, every generated single-point deviation must be reported (incl. after validate()+reset() histories and extra fields named like other types' fields); generated TestCase outcomes under capture_logging with an identity oracle on the default logger",
+        "Generated MessageType/ActionType definitions are used correctly (must validate) and with exactly one deviation (must raise ValidationError/TypeError); unflushed tracebacks must fail first; decorated tests with every outcome must leave the previous default logger in place. Holds on everything generated.",
+        "bytes fields and bool-for-int are not used as deviations (see DESIGN.md); validate() once per logger state.",
+        "DESIGN.md section 3 C14",
+    ),
+    "C15": (
+        "exploration",
+        "property-based testing (Hypothesis): generated generator bodies x driver scripts (next/send/throw/close from changing driver contexts); identity oracle on current_action() inside and outside, differential trace against the undecorated generators, model equality of the reconstructed forest",
+        "1-3 decorated generators built from a DSL are driven by generated scripts from different surrounding contexts; every step checks the generator's and the driver's current action by identity, the trace of values/exceptions must equal the undecorated run (incl. StopIteration.value), and the logged forest must equal the model. Holds on everything generated.",
+        "Only the wrapper that eliot.twisted.inline_callbacks delegates to is exercised (Twisted absent).",
+        "DESIGN.md section 3 C15",
+    ),
+    "C17": (
+        "exploration",
+        "property-based testing (Hypothesis): generated programs captured by a MemoryLogger; differential between eliot.testing helpers, eliot.parse.Parser and an independent reconstruction (identity of message objects, emission order), plus generated expected-field sets for the assert helpers",
+        "For every action/message type in generated logs (repeated types at several depths, interleaved tasks, remote children emitted out of level order or after their parent ended) of_type / children / descendants / type_tree / assertHasAction / assertHasMessage are compared with an independent reconstruction and with the parser's tree. Holds on everything generated.",
+        "Logs with unfinished actions are outside the quantifier (of_type raises by design).",
+        "DESIGN.md section 3 C17",
+    ),
+    "C18": (
+        "exploration",
+        "property-based differential testing (Hypothesis): generated function sources (all parameter kinds, colliding names, methods) x decorator options x valid and random argument lists; decorated vs undecorated behaviour and logged arguments vs inspect.signature binding",
+        "Generated functions are exec'd, decorated with generated options and called with generated (often unbindable) argument lists; results, raised objects, TypeErrors, the logged start/end messages and the wrapper's metadata are compared with the undecorated function and Python's own binding. Holds on everything generated.",
+        "Positional-only parameters are an open known finding (F4, third-party boltons) excluded by construction and reproduced on every run.",
+        "DESIGN.md section 3 C18",
+    ),
+    "C19": (
+        "fault_enumeration",
+        "property-based testing over schedules and fault masks (Hypothesis): real producer/writer threads around a gated destination that fixes how much is written when stop is requested; exact sequence, thread-identity and stop-completion oracles",
+        "Generated start/stop cycles, producer mixes, destination failure masks and gate positions drive a real ThreadedWriter; the wrapped destination must see exactly the offered sequence on one foreign thread, producers must not wait for output, and stopService's result must complete exactly after the queued tail is written. Holds on everything generated.",
+        "Uses small stand-ins for twisted.application.service.Service and twisted.internet.threads.deferToThreadPool (Twisted not installable).",
+        "DESIGN.md section 3 C19",
+    ),
+    "C20": (
+        "exploration",
+        "property-based testing (Hypothesis): generated messages parsed back from compact_format/pretty_format by an independent reader; generated input streams through eliot-prettyprint's _main against an independent line classifier; eliot.filter against a table of expressions with Python models",
+        "Generated messages (arbitrary field names/values incl. multi-line text and unicode line separators) must be rendered completely and in the documented order; mixed streams of Eliot lines, arbitrary bytes and non-object JSON must be processed line by line without aborting; filter output must equal the expression's value per line. Holds on everything generated.",
+        "Required fields with wrong types are outside the property's list; -l only checked for not crashing.",
+        "DESIGN.md section 3 C20",
+    ),
 }
 
 NOT_YET = "check not built yet in this round; see DESIGN.md for the planned generator and oracle"
